@@ -227,8 +227,10 @@ def flavour_world(rng, flavour):
         b = W.gen_data_model(rng, "d1", (m,), ["p", "q"])
         a.restrict, b.restrict = ["v", "w"], ["p", "q"]
         H.models = [a, b]
-        H.links_pool = [((0, "w"), (1, "p")), ((0, "v"), (1, "q")), ((0, "w"), (1, "q")), ((0, "v"), (1, "p"))]
-        H.links_active = rng.choice([[0, 1], [0], [2, 3], [1], []])
+        H.links_pool = [((0, "w"), (1, "p"), None), ((0, "v"), (1, "q"), None), ((0, "w"), (1, "q"), None),
+                        ((0, "v"), (1, "p"), None), ((0, "w"), (1, "p"), "x2"), ((0, "v"), (1, "q"), "x2"),
+                        ((0, "w"), (1, "q"), "x2")]
+        H.links_active = list(rng.choice([c for c in link_configs(H.links_pool) if len(c) >= 1]))
         H.cross_refs = {0: [["c", 1, "p"], ["c", 1, "q"]], 1: [["c", 0, "v"], ["c", 0, "w"]]}
     else:
         raise ValueError(flavour)
@@ -238,8 +240,26 @@ def flavour_world(rng, flavour):
 def can_add_link(H, k):
     used = set()
     for j in H.links_active:
-        used.update(H.links_pool[j])
-    return k not in H.links_active and not (set(H.links_pool[k]) & used)
+        used |= W.link_ends(H.links_pool[j])
+    return k not in H.links_active and not (W.link_ends(H.links_pool[k]) & used)
+
+
+def link_configs(pool):
+    """All sets of at most two pool links in which every component takes part in at most one link (so that what a
+    linked id derives from is never ambiguous)."""
+    out = [[]] + [[k] for k in range(len(pool))]
+    for a in range(len(pool)):
+        for b in range(a + 1, len(pool)):
+            if not (W.link_ends(pool[a]) & W.link_ends(pool[b])):
+                out.append([a, b])
+    return out
+
+
+def derivable_ids(pool, config):
+    ends = set()
+    for k in config:
+        ends |= W.link_ends(pool[k])
+    return ends
 
 
 def state_has(desc, kind):
@@ -323,6 +343,17 @@ def choose_mutation(rng, H):
     fl = H.flavour
     r = rng.random()
     alive = [k for k in range(len(H.live.states)) if k not in H.poisoned]
+    if fl == "linked" and r < 0.17:
+        # atomic replacement of the link set: the link manager sees only the final set, so a dataset's table of
+        # externally derivable components is replaced in one go - possibly with the very same ids derivable through
+        # different links (other source attribute, other function)
+        cur = sorted(H.links_active)
+        cands = [c for c in link_configs(H.links_pool) if sorted(c) != cur]
+        same = [c for c in cands if c and derivable_ids(H.links_pool, c) == derivable_ids(H.links_pool, cur)]
+        target = rng.choice(same) if (same and rng.random() < 0.7) else rng.choice(cands)
+        return {"op": rng.choice(["link_set", "link_delayed", "link_delayed_all"]), "kind": "link_change",
+                "target": list(target), "same_ids": bool(cur) and derivable_ids(H.links_pool, target) ==
+                derivable_ids(H.links_pool, cur)}
     if fl == "linked" and r < 0.3:
         opts = []
         if H.links_active:
@@ -337,7 +368,8 @@ def choose_mutation(rng, H):
                     "k": rng.choice([k for k in range(len(H.links_pool)) if can_add_link(H, k)])}
         k = rng.choice(H.links_active)
         cands = [j for j in range(len(H.links_pool)) if j != k and j not in H.links_active and
-                 not (set(H.links_pool[j]) & set(x for i in H.links_active if i != k for x in H.links_pool[i]))]
+                 not (W.link_ends(H.links_pool[j]) & set(x for i in H.links_active if i != k
+                                                         for x in W.link_ends(H.links_pool[i])))]
         if not cands:
             return {"op": "link_remove", "kind": "link_change", "k": k}
         return {"op": op, "kind": "link_change", "k": k, "j": rng.choice(cands)}
@@ -427,6 +459,33 @@ def perform(H, mut):
             H.probe.todo = None
         verify(H, H.reads, twin, mut, False)
         return True
+    if op in ("link_set", "link_delayed", "link_delayed_all"):
+        target = list(mut["target"])
+        try:
+            if op == "link_set":
+                new = {j: W.make_link(H.links_pool[j], live.datas) for j in target}
+                live.dc.set_links(list(new.values()))
+                live.links = new
+            else:
+                # link_delayed keeps the link objects that stay; link_delayed_all re-creates every link
+                stay = [j for j in H.links_active if j in target] if op == "link_delayed" else []
+                with live.dc.delay_link_manager_update():
+                    for j in list(live.links):
+                        if j not in stay:
+                            live.dc.remove_link(live.links.pop(j))
+                    for j in target:
+                        if j not in stay:
+                            live.links[j] = W.make_link(H.links_pool[j], live.datas)
+                            live.dc.add_link(live.links[j])
+            H.links_active = target
+        except Exception as e:
+            ctx.violation({"kind": "mutation_raised", "mutation": mut["kind"], "op": op, "exception": type(e).__name__},
+                          {"history": describe_history(H), "error": repr(e)[:300]})
+            return False
+        ctx.count("mutations:link_change_atomic" + (":same_derivable_ids" if mut["same_ids"] else ""))
+        twin = twin_of(H)
+        verify(H, H.reads, twin, mut, False)
+        return True
     if op in ("link_add", "link_remove", "link_swap"):
         try:
             if op in ("link_remove", "link_swap"):
@@ -500,7 +559,7 @@ def verify(H, reads, twin, mut, during):
         changed = warm and not same_outcome(to, r["last"])
         sdesc = None if r.get("s") is None else H.snap[r["s"]]
         own = r.get("s") is not None and mut.get("s") == r["s"]
-        fp = [mut["kind"], mut.get("attr"), mut.get("how"), mut.get("node"), mut.get("depth"), r["k"], r.get("via"),
+        fp = [mut["kind"], mut["op"], mut.get("same_ids"), mut.get("attr"), mut.get("how"), mut.get("node"), mut.get("depth"), r["k"], r.get("via"),
               view_class(r), None if sdesc is None else W.shape_sig(sdesc), during, H.flavour]
         nontrivial = warm and changed and to[0] == "ok"
         ctx.evaluation(fp, nontrivial)
@@ -511,6 +570,9 @@ def verify(H, reads, twin, mut, during):
         if nontrivial:
             ctx.count("post_mutation_rereads_truth_changed:" + tag)
             ctx.count("truth_changed_kind:" + READ_FAMILY[r["k"]])
+            if mut.get("same_ids"):
+                ctx.count("post_mutation_rereads_truth_changed:link_change_atomic_same_derivable_ids")
+                ctx.count("truth_changed_atomic_same_ids_kind:" + READ_FAMILY[r["k"]])
             if ctx.rng.random() < 0.002:
                 ctx.sample({"flavour": H.flavour, "mutation": {k: v for k, v in mut.items() if k != "value"},
                             "read": describe_read(r), "state": sdesc, "before": brief(r["last"]), "after_twin": brief(to),
@@ -693,7 +755,7 @@ def floors(c, tier):
         out.append("fewer than 3000 post-mutation re-reads compared against a twin (%d)" % total)
     # re-reads of an object read before the mutation whose true answer changed, per mutation kind
     need = {"update_components": 150, "update_values_from_data": 60, "setter": 150, "move_to": 15, "roi_edit": 12,
-            "link_change": 60, "update_components:during_broadcast": 40, "update_values_from_data:during_broadcast": 15,
+            "link_change": 60, "link_change_atomic_same_derivable_ids": 25, "update_components:during_broadcast": 40, "update_values_from_data:during_broadcast": 15,
             "indices": 50, "hist:update_components": 25, "hist:viewer_setting": 40, "hist:subset_replace": 8,
             "prof:update_components": 30, "prof:viewer_setting": 30, "prof:subset_replace": 8}
     for k, n in need.items():
